@@ -2,6 +2,8 @@ package main
 
 import (
 	"fmt"
+	"os"
+	"runtime"
 	"strings"
 	"time"
 
@@ -19,11 +21,11 @@ import (
 // so that a continuation of the normal flow / of an exception flow is observable as a request of N / X1 / X2.
 // A schedule is a sequence over {p = answer P (the token then reaches H), d1, d2 = deliver sig1 / sig2,
 // a = answer H}. Modes: wait (quiescence before every action), nowait (the actions after p back-to-back),
-// nowaitall (p included: the event races the activation), and three enforced schedules that park one goroutine
-// of the real engine at a verifhook point (hold-forward, hold-listener, hold-catch).
+// nowaitall (p included: the event races the activation), and four enforced schedules that park one goroutine
+// of the real engine at a verifhook point (hold-forward, hold-listener, hold-catch, hold-activation).
 func init() {
 	caseFamilies["c10"] = &caseFamily{
-		Shard: 1, Par: 12,
+		Shard: 1, Par: 14,
 		Count: func(tier string) int { return len(c10cases(tier)) },
 		Run: func(out *rec.Out, idx int, rng *rec.Rng, tier string, stats map[string]int) {
 			c10run(out, c10cases(tier)[idx], stats)
@@ -77,8 +79,8 @@ func c10cases(tier string) []c10case {
 					}
 					acts := append(append(append([]string{}, s[:pre]...), "p"), s[pre:]...)
 					k++
-					// quick: everything up to length 3, a third of length 4 for two boundary events
-					if tier != "thorough" && nb == 2 && len(s) == 4 && k%3 != 0 {
+					// quick: everything up to length 3 (event before activation up to length 2), a sixth of the rest
+					if tier != "thorough" && nb == 2 && (len(s) == 4 || (pre == 1 && len(s) == 3)) && k%6 != 0 {
 						continue
 					}
 					cs = append(cs, c10case{host, kinds, acts, "wait"})
@@ -86,22 +88,35 @@ func c10cases(tier string) []c10case {
 				// racing variants: only schedules in which something can race (≥ 2 actions after p)
 				if len(s) >= 2 {
 					k++
-					if tier == "thorough" || len(s) <= 2 || k%4 == 0 {
+					if tier == "thorough" || (len(s) <= 2 && nb == 1) || k%5 == 0 {
 						cs = append(cs, c10case{host, kinds, append([]string{"p"}, s...), "nowait"})
 					}
 				}
 				if len(s) >= 1 && len(s) <= 3 {
 					k++
-					if tier == "thorough" || len(s) <= 1 || k%4 == 0 {
+					if tier == "thorough" || len(s) <= 1 || k%5 == 0 {
 						cs = append(cs, c10case{host, kinds, append([]string{"p"}, s...), "nowaitall"})
 					}
+				}
+			}
+			// the event races the activation, repeatedly (the window between the harness's active:=1 and the
+			// activity's first message is wide for a sub-process host)
+			if kinds[0] == 'i' {
+				reps := 2
+				if tier == "thorough" {
+					reps = 8
+				}
+				for rep := 0; rep < reps; rep++ {
+					cs = append(cs, c10case{host, kinds, []string{"p", "d1", "d1", "d1", "d1"}, "nowaitall"})
 				}
 			}
 			// enforced schedules
 			cs = append(cs, c10case{host, kinds, []string{"p", "a", "d1"}, "hold-forward"})
 			cs = append(cs, c10case{host, kinds, []string{"p", "d1", "a"}, "hold-listener"})
 			cs = append(cs, c10case{host, kinds, []string{"p", "d1", "a"}, "hold-catch"})
+			cs = append(cs, c10case{host, kinds, []string{"p", "d1", "a"}, "hold-activation"})
 			if nb == 2 {
+				cs = append(cs, c10case{host, kinds, []string{"p", "d2", "d1", "a"}, "hold-activation"})
 				cs = append(cs, c10case{host, kinds, []string{"p", "a", "d1", "d2"}, "hold-forward"})
 				cs = append(cs, c10case{host, kinds, []string{"p", "d1", "d2", "a"}, "hold-listener"})
 			}
@@ -190,10 +205,28 @@ func c10run(out *rec.Out, c c10case, stats map[string]int) {
 			time.Sleep(20 * time.Microsecond)
 		}
 	}
+	// quiesce: once the process has been seen not to quiesce (a goroutine of the engine spins), pacing falls back
+	// to a fixed pause so that the rest of the schedule is still carried out and recorded
+	spinning := false
 	quiesce := func() bool {
-		if !in.Quiesce(4 * timeSecond) {
+		if spinning {
+			time.Sleep(40 * time.Millisecond)
+			return true
+		}
+		// (a loaded machine can starve the process for a while: one generous retry before the verdict)
+		if !in.Quiesce(3*timeSecond) && !in.Quiesce(9*timeSecond) {
 			in.Note("obs noquiesce")
-			return false
+			spinning = true
+			if os.Getenv("C10_DEBUG") != "" {
+				buf := make([]byte, 1<<20)
+				n := runtime.Stack(buf, true)
+				for _, g := range strings.Split(string(buf[:n]), "\n\n") {
+					if strings.Contains(g, "[running]") || strings.Contains(g, "[runnable]") {
+						fmt.Fprintln(os.Stderr, g)
+						fmt.Fprintln(os.Stderr)
+					}
+				}
+			}
 		}
 		return true
 	}
@@ -304,6 +337,29 @@ func c10run(out *rec.Out, c c10case, stats map[string]int) {
 		}
 		quiesce()
 		release("flow.action")
+	case "hold-activation":
+		// the host's harness has stored active = 1 and is parked before it calls activity.NextAction: the events
+		// that follow are forwarded, an interrupting listener's cancel message reaches the activity's inbox before
+		// the activity's first message
+		quiesce()
+		arr := hold("harness.before_next_action")
+		answer("P", false)
+		if !sched.WaitArrived(arr, 2*timeSecond) {
+			in.Note("obs notarrived harness.before_next_action")
+		}
+		for _, a := range c.acts[1:] {
+			if a == "a" {
+				continue
+			}
+			quiesce()
+			deliver(a)
+		}
+		quiesce()
+		release("harness.before_next_action")
+		quiesce()
+		if find(hostTask) != nil {
+			ok = answer(hostTask, false)
+		}
 	case "hold-catch":
 		// the event is forwarded to the catch event (the harness was active) but the catch event's run loop is
 		// parked before it looks at it; the host is answered and completes meanwhile
@@ -342,8 +398,8 @@ func c10run(out *rec.Out, c c10case, stats map[string]int) {
 		}
 	}
 	quiesce()
-	complete := in.WaitComplete(120 * timeMillisecond)
-	in.Quiesce(2 * timeSecond)
+	complete := in.WaitComplete(60 * timeMillisecond)
+	quiesce()
 	for _, l := range in.Lines() {
 		out.Line("%s", l)
 	}
